@@ -138,7 +138,7 @@ def handleTick (sc tr : Json) : Json :=
   let contained := kills.all fun (p, s) => (s == 9 || s == 0) && lo ≤ p && p ≤ hi
   -- a configuration rejected at start-up (e.g. a percent threshold with no MemTotal) is not a tick
   let v1 := if (r == "ok" || r == "config-rejected") && !crashed tr then [] else ["C10.tick_no_crash"]
-  let v2 := if contained then [] else ["C10.containment_under_faults"]
+  let v2 := if contained && !(jbool tr "mixed_incarnations") then [] else ["C10.containment_under_faults"]
   let viol := v1 ++ v2
   verdict id viol.isEmpty viol.isEmpty viol (if r == "throws" then s!"tick-throws:{jstr tr "what"}" else "tick")
 
